@@ -387,9 +387,8 @@ func closeExempt(p *Prog) map[*ssa.Function]bool {
 			})
 		}
 		if only && !writes {
-			out[g] = true
-			for _, a := range g.AnonFuncs {
-				out[a] = true
+			for f := range p.family(g) {
+				out[f] = true
 			}
 		}
 	}
